@@ -2,6 +2,10 @@
 
 package sumfile
 
+import "path/filepath"
+
+var _ = filepath.Join
+
 // Contracts checked by /verif/govc (see /verif/DESIGN.md). This file is compiled only with -tags verif.
 
 //@ func File.Sum
@@ -21,10 +25,29 @@ func spec_sumText(keys []string, data map[string]string, n int) string {
 
 //@ func File.Bytes
 //@   props C08 C04
+//@   pure
 //@   requires f != nil
 //@   ensures string(result) == spec_sumText(spec_sortedKeys(f.Data), f.Data, len(f.Data))
 //@   loop 1 invariant b != nil && b.String() == spec_sumText(xs1, f.Data, it1)
 //@   note one `path hash` line per entry, keys ascending: a function of the map's contents only (order independence, C04)
+
+//@ func File.Save
+//@   props C02 C07 C08
+//@   requires f != nil
+//@   assigns nothing
+//@   effects
+//@   ensures eq(spec_calls(), old(spec_calls())) && spec_callMark() == old(spec_callMark())
+//@   ensures len(spec_fx()) >= len(old(spec_fx())) && len(spec_fx()) <= len(old(spec_fx()))+2 && eq(spec_fx()[:len(old(spec_fx()))], old(spec_fx()))
+//@   ensures forall i int :: len(old(spec_fx())) <= i && i < len(spec_fx()) ==> spec_fx()[i].Path == filepath.Join(f.Dir, sumFilename)
+//@   note gengo.sum is the only file Save touches: <Dir>/gengo.sum (created/truncated, then written)
+
+//@ func Load
+//@   props C08
+//@   pure
+//@   ensures (result1 == nil) == (result0 != nil)
+//@   ensures result0 != nil ==> fresh(result0) && result0.Dir == modRoot && result0.Data != nil
+//@   loop 1 invariant sum != nil && sum.Data != nil && sum.Dir == modRoot
+//@   note a gengo.sum that cannot be read yields (nil, err): the caller then has no previous sums and regenerates everything; lines with fewer than two fields are ignored
 
 // ---- govc prelude: ghost helpers of the clause language (identical in every contracts_verif.go) ----
 
